@@ -194,6 +194,11 @@ ToOldSlot(s) ==
 ToNew(ss) == [i \in 1 .. Len(ss) |-> ToNewSlot(ss[i])]
 ToOld(ss) == [i \in 1 .. Len(ss) |-> ToOldSlot(ss[i])]
 
+\* a conversion delivers the target format, slot by slot: a list may mix old and
+\* new entries in any order and every entry is looked at on its own
+AllNew(ss) == \A i \in 1 .. Len(ss) : IsNew(ss[i])
+AllOld(ss) == \A i \in 1 .. Len(ss) : ~IsNew(ss[i])
+
 \* what the property demands of a conversion a -> b
 SlotKeeps(a, b) == /\ b.node_name = a.node_name /\ b.node_index = a.node_index
                    /\ Idx(b.cores) = Idx(a.cores) /\ Idx(b.gpus) = Idx(a.gpus)
@@ -213,4 +218,12 @@ Encode(c)    == [tag |-> "bson", f |-> c.f, a |-> ArgNorm(c.a),
                        THEN "null" ELSE KwNorm(c.k)]
 Decode(b)    == <<b.f, b.a, b.k>>
 CallRes(t)   == IF t[3] = "null" THEN <<"raise", "TypeError">> ELSE t
+
+\* sequences of short-lived callables, [api, fs (callable ids), a]: the i-th
+\* callable is created with tag i, encoded and dropped before the next one is
+\* created; all are decoded afterwards.  Each must come back as itself.
+SeqOracle(c)  == [i \in 1 .. Len(c.fs) |-> <<c.fs[i], i, ArgNorm(c.a)>>]
+EncodeSeq(c)  == [i \in 1 .. Len(c.fs) |-> [tag |-> "bson", f |-> c.fs[i], pos |-> i,
+                                            a |-> ArgNorm(c.a)]]
+DecodeSeq(bs) == [i \in 1 .. Len(bs) |-> <<bs[i].f, bs[i].pos, bs[i].a>>]
 =============================================================================
